@@ -158,8 +158,9 @@ def make_case(args):
         dsw[k] = v
     W = {"smooth33": lambda x: x.spec.smooth(3, 3), "smooth51": lambda x: x.spec.smooth(5, 1), "smooth15": lambda x: x.spec.smooth(1, 5),
          "interp": C["interp"], "interp_like": C["interp_like"], "rotate_any": C["rotate_any"], "split": C["split"], "ptm5": C["ptm5"],
+         "bbox": C["bbox"], "ptm4": C["ptm4"],
          "ds.interp": None, "ds.smooth": None, "ds.interp_like": None}
-    for op in ["ds.interp", "ds.interp_like", "ds.smooth"] + rng.sample([k for k in sorted(W) if not k.startswith("ds.")], 2):
+    for op in ["ds.interp", "ds.interp_like", "ds.smooth", "bbox"] + rng.sample([k for k in sorted(W) if not k.startswith("ds.") and k != "bbox"], 2):
         rec = dict(op=f"window:{op}", icase=icase, chunks={k: v for k, v in chw.items()}, scheduler="synchronous", workers=None, dims=list(dw.dims),
                    shape=[int(dw.sizes[d]) for d in dw.dims], spectral_split=True)
         try:
